@@ -27,8 +27,6 @@ ASSUMPTIONS = [
     "non-negative integer unit costs; only the transfer cost may be infinite",
 ]
 OPEN = [
-    "C01_thl_optimal: thl's table value equals the minimum over all valid mappings under Coherent costs "
-    "(generic tree-DP + role-classification lemma) — see Properties/C01.lean for what is proved",
 ]
 
 CORPUS = [
